@@ -13,10 +13,6 @@ import (
 	"github.com/hashicorp/serf/serf"
 )
 
-// VFilterMembers calls the unexported member filter of the IPC server.
-func VFilterMembers(members []serf.Member, tags map[string]string, status, name string) ([]serf.Member, error) {
-	return (&AgentIPC{}).filterMembers(members, tags, status, name)
-}
 
 // VMembersReply is what a client would read after one members request.
 type VMembersReply struct {
@@ -33,28 +29,46 @@ type VMembersReply struct {
 // real request dispatcher (handleRequest -> handleMembers -> filterMembers)
 // with in-memory buffers in place of the TCP connection.
 func VMembersRPC(s *serf.Serf, command string, seq uint64, tags map[string]string, status, name string) VMembersReply {
-	ipc := &AgentIPC{agent: &Agent{serf: s}, logger: log.New(io.Discard, "", 0)}
-	var in, out bytes.Buffer
-	if command == membersFilteredCommand {
-		req := membersFilteredRequest{Tags: tags, Status: status, Name: name}
-		if err := codec.NewEncoder(&in, ipc.newMsgpackHandle()).Encode(&req); err != nil {
-			return VMembersReply{HandlerErr: err}
-		}
-	}
-	c := &IPCClient{
+	return VNewMembersConn(s).Request(command, seq, tags, status, name)
+}
+
+// VMembersConn is one client connection on which several members requests are made one after another.
+type VMembersConn struct {
+	ipc     *AgentIPC
+	c       *IPCClient
+	in, out *bytes.Buffer
+}
+
+func VNewMembersConn(s *serf.Serf) *VMembersConn {
+	v := &VMembersConn{ipc: &AgentIPC{agent: &Agent{serf: s}, logger: log.New(io.Discard, "", 0)}, in: &bytes.Buffer{}, out: &bytes.Buffer{}}
+	v.c = &IPCClient{
 		name:           "verif",
-		reader:         bufio.NewReader(&in),
-		writer:         bufio.NewWriter(&out),
+		reader:         bufio.NewReader(v.in),
+		writer:         bufio.NewWriter(v.out),
 		eventStreams:   make(map[uint64]*eventStream),
 		pendingQueries: make(map[uint64]*serf.Query),
 		version:        MaxIPCVersion,
 	}
-	c.dec = codec.NewDecoder(c.reader, ipc.newMsgpackHandle())
-	c.enc = codec.NewEncoder(c.writer, ipc.newMsgpackHandle())
+	v.c.dec = codec.NewDecoder(v.c.reader, v.ipc.newMsgpackHandle())
+	v.c.enc = codec.NewEncoder(v.c.writer, v.ipc.newMsgpackHandle())
+	return v
+}
+
+// Request pushes one "members" / "members-filtered" request through the real dispatcher on this connection.
+func (v *VMembersConn) Request(command string, seq uint64, tags map[string]string, status, name string) VMembersReply {
+	ipc, c := v.ipc, v.c
+	in, out := v.in, v.out
+	out.Reset()
+	if command == membersFilteredCommand {
+		req := membersFilteredRequest{Tags: tags, Status: status, Name: name}
+		if err := codec.NewEncoder(in, ipc.newMsgpackHandle()).Encode(&req); err != nil {
+			return VMembersReply{HandlerErr: err}
+		}
+	}
 	var r VMembersReply
 	r.HandlerErr = ipc.handleRequest(c, &requestHeader{Command: command, Seq: seq})
 	r.ReplyBytes = out.Len()
-	dec := codec.NewDecoder(&out, ipc.newMsgpackHandle())
+	dec := codec.NewDecoder(out, ipc.newMsgpackHandle())
 	var h responseHeader
 	if dec.Decode(&h) != nil {
 		return r
